@@ -155,7 +155,8 @@ where
                 let amount = amount.min(MAX_HEADERS_AMOUNT_RESPONSE);
                 let mut responses = vec![];
 
-                for i in origin..origin + amount {
+                // NOTE: `origin + amount` would overflow for origins at the top of the `u64` range
+                for i in (origin..=u64::MAX).take(amount as usize) {
                     match store.get_by_height(i).await {
                         Ok(h) => {
                             if responses.is_empty() {
